@@ -48,6 +48,10 @@ LIMS = (1, 2, 3, 16, 128)
 # slowest terminating run observed on the unchanged tree is in the evidence
 # (max_cpu_ms_one_run) and stays two orders of magnitude below
 CPU_BUDGET = 30.0
+# sub-tape nesting a script may reach without CPython's default recursion
+# limit being the cause of an error (see the open finding): any script, and
+# the plain IF / TRY nests (two frames per level)
+SHALLOW_ANY, SHALLOW_PLAIN = 300, 410
 NONTERMINATING = [0]
 
 
@@ -184,7 +188,7 @@ def gen_script(rng, mi, ms, lim):
     if k == 'rec_loop':
         return k, isa.DEF(0, O('TRUE') + isa.LOOP(isa.CALL(0))) + isa.CALL(0)
     if k in ('nest_if', 'nest_try'):
-        d = rng.choice((1, 5, 50, 200, 300, 300, 480, 520, 700))
+        d = rng.choice((1, 5, 50, 200, 300, 400, 400, 480, 520, 700))
         body = O('TRUE')
         for _ in range(d):
             if len(body) > 60000:
@@ -436,6 +440,15 @@ def judge(ctx, case):
             key = 'python-recursion-before-callstack-limit'
             ctx.tab('recursion_error_at_run_tape_nesting',
                     mon.max_py_depth // 20 * 20)
+            # the open finding is CPython's limit of 1000 frames reached at
+            # two frames per sub-tape level (three through MERKLEVAL /
+            # TAPROOT): plain nesting >= ~490.  The same error on a script
+            # that never nests that far is another input and not that
+            # finding (e.g. a further Python frame per run_tape level)
+            if mon.max_py_depth <= SHALLOW_ANY or (
+                    case['tmpl'] in ('nest_if', 'nest_try')
+                    and mon.max_py_depth <= SHALLOW_PLAIN):
+                key = 'python-recursion-at-shallow-nesting'
         if isinstance(exc, OverflowError) and entropy and \
                 max(entropy) > ms:
             key = 'entropy-request-over-item-limit'
